@@ -264,6 +264,8 @@ class Credits(Mode):
 
         self._update_credit_strings()
 
+        # prevent duplicate coin switch / credit event handlers when already in credit play
+        self._disable_credit_handlers()
         self._enable_credit_handlers()
 
         # prevent duplicate handlers
